@@ -208,6 +208,8 @@ def eval_add_vertices(repo: Repo, slave: Set[str], patches_by_side: Dict[str, st
     mesh = Obj("mesh", cls=repo.cls("mesh.Mesh"))
     pl = Obj("patch_list")
     pl.set("slave_patches", set(slave))
+    pl.set("master_patches", {"<master>"} | {p for p in patches_by_side.values() if p not in slave})
+    pl.set("merged", [["<master>", sp] for sp in sorted(slave)])
     mesh.set("patch_list", pl)
     mesh.set("vertex_list", Obj("vertex_list"))
     calls = []
@@ -284,7 +286,10 @@ def identity_labels(repo: Repo, prop: str, rule: str) -> RuleRun:
     closure = write_closure(repo)
     # entity constructors feed the write closure through stored state
     elem = repo.cls("base.element.ElementBase")
-    ctor_closure = repo.reachable([f for c in repo.subclasses(elem) for f in [c.methods.get("__init__")] if f is not None])
+    # every method of an entity can store state that assemble() later reads (patch names, labels, zones)
+    entity_methods = [f for c in [elem, *repo.subclasses(elem)] for f in c.methods.values()]
+    mesh_methods = list(repo.cls("mesh.Mesh").methods.values())
+    ctor_closure = repo.reachable([*entity_methods, *mesh_methods])
     relevant = closure | ctor_closure
     scanned = 0
     for fn in sorted(repo.all_functions(), key=lambda f: f.qualname):
@@ -292,7 +297,7 @@ def identity_labels(repo: Repo, prop: str, rule: str) -> RuleRun:
         for s in nondet_sources(fn):
             nm = attr_chain(s.func) if isinstance(s, ast.Call) else attr_chain(s)
             if fn not in relevant:
-                r.ok(fn, f"{nm}: outside the closure of Mesh.write/assemble and of entity constructors (cannot reach the written file)", key=nm)
+                r.ok(fn, f"{nm}: outside the closure of Mesh.* and of the entity classes (cannot reach the written file)", key=nm)
                 continue
             # flows into a string / return value / stored value?
             p = parent(s)
@@ -313,7 +318,7 @@ def identity_labels(repo: Repo, prop: str, rule: str) -> RuleRun:
                 )
             else:
                 r.ok(fn, f"{nm} used in a comparison only", key=nm)
-    r.note(f"{scanned} functions scanned; {len(relevant)} of them lie in the closure of Mesh.write/assemble or of an entity constructor")
+    r.note(f"{scanned} functions scanned; {len(relevant)} of them lie in the closure of the Mesh methods or of the entity (ElementBase) classes")
     return r
 
 
